@@ -204,7 +204,11 @@ def walks_for_shape(arg):
             psi = psi0.clone()
             for st in w["walk"]:
                 if st[0] == "T":
-                    v = torch.tensor([[st[1][0] / 4.0, st[1][1] / 4.0]], dtype=torch.float64)
+                    if st[1][0] % 4 == 0 and st[1][1] % 4 == 0 and (len(w["walk"]) + idx) % 2:
+                        # an integer translation written with an integer dtype (as a user would: torch.tensor([[1, -2]]))
+                        v = torch.tensor([[st[1][0] // 4, st[1][1] // 4]], dtype=[torch.int64, torch.int32][idx % 2])
+                    else:
+                        v = torch.tensor([[st[1][0] / 4.0, st[1][1] / 4.0]], dtype=[torch.float64, torch.float32][(idx // 2) % 2])
                     psi = fourier_shift_expand(psi, v, expand_dim=False)
                     if psi.shape != psi0.shape:
                         psi = psi.reshape(psi0.shape)
